@@ -26,7 +26,7 @@ ASSUMPTIONS = c03.ASSUMPTIONS + ["the model's notion of 'breaks a declared rule'
 PROFILE = dict(c03.PROFILE)
 STYLES = [dict(key="long", val="word", group="never"), dict(key="short", val="glue", group="max"), dict(key="abbr", val="eq"), dict(), dict()]
 MUTATIONS = ["drop-mandatory", "cardinality", "unknown-short", "unknown-long", "ambiguous-abbr", "bad-value", "check-fail",
-             "missing-value", "excluded", "missing-required", "all_of", "two-of", "one_of-none", "differ", "disjoint", "level-limit", "tuple-short"]
+             "missing-value", "excluded", "missing-required", "all_of", "two-of", "one_of-none", "differ", "disjoint", "level-limit", "tuple-short", "cardinality-free-values"]
 
 
 def cases(tier):
@@ -183,6 +183,26 @@ def mutate(rng, cfg, uses, kind):
             m[i].elems[rng.randrange(len(m[i].elems))] = t
             return m, None
         return None
+    if kind == "cardinality-free-values":
+        # a multi-value container whose cardinality is used up gets one more value as a separate word behind its list
+        c = []
+        for i, u in enumerate(m):
+            a = u.arg
+            if not (u.elems and is_container(a.slot) and argh.cat_of(a.slot) == "seq"):
+                continue
+            card = a.default_card()
+            n = sum(len(x.elems) for x in m if x.arg is a and x.elems)
+            if (card[0] in ("max", "exact") and n == card[1]) or (card[0] == "range" and n == card[2]):
+                c.append(i)
+        if not c:
+            return None
+        i = rng.choice(c)
+        a = m[i].arg
+        extra = m[i].elems[-1]
+        if extra.startswith("-") or extra in argh.CTRL or extra == "" or a.sepchar() in extra:
+            return None
+        a.multi = True
+        return m, (i + 1, [extra] if rng.random() < 0.7 else [extra, extra])
     if kind == "tuple-short":
         # a tuple destination (three elements) that gets one or two values only: used, but not all expected values
         if any(x.short == "T" or (x.long or "").startswith("zz-tr") for x in cfg.args):
